@@ -101,6 +101,11 @@ def gen_ws(seed, pid, bias):
             if not t.get('deco'):
                 t['idx'] = rng.choice(WEIRD)
                 t['must_fail'] = rng.choice(['AssertionError', 'ValueError'])
+    if bias.get('p_multicount') and rng.random() < bias['p_multicount']:
+        # a test object whose countTestCases() is not 1 (the anchored testsRun adjustment)
+        cs = [c for m_ in world['modules'] for c in m_['classes']]
+        for _ in range(rng.randint(1, 2)):
+            rng.choice(rng.choice(cs)['tests'])['count'] = rng.randint(2, 4)
     if rng.random() < bias.get('p_c_raise', 0.0) and world['layers']:
         # a layer hook that raises at the call itself (see simrt.populate_layers)
         L = rng.choice(world['layers'])
@@ -599,7 +604,7 @@ def oracle_counts(m, spec, res, T):
     seen_last = {}
     for o in T.occs:
         seen_last.setdefault((o['pid'], o['layer']), {}).setdefault(o['occ'], 0)
-        seen_last[(o['pid'], o['layer'])][o['occ']] += 1
+        seen_last[(o['pid'], o['layer'])][o['occ']] += o['d']['t'].get('count') or 1
     for k, d in seen_last.items():
         n_last += d[max(d)]
     _, f, e, s = T.count()
